@@ -444,6 +444,80 @@ def _od(pairs):
     return odict(pairs)
 
 
+def portless_case(ctx, world, rng, idx):
+    """A redirect whose Location names no port: the request is reissued to the default port of the Location's scheme (80 /
+    443).  Nobody listens there in the sandbox, so the chain is not completed: the verdict is where the reissued request
+    is aimed -- the connector's address, the requester's scheme and port and the Host line of the rebuilt request -- read
+    right after the patron has processed the redirect response."""
+    from ioflo.aio.http import clienting
+    import socket
+    tag = "p%d-%d" % (ctx.job["index"] if ctx.job else 0, idx)
+    start_srv = rng.choice(["A", "A", "B"])
+    to_scheme = rng.choice(["http", "https", "https"])
+    s0 = world.server(start_srv)
+    host = rng.choice([s0["host"], "localhost", "127.0.0.1"]) if to_scheme == "http" else "localhost"
+    path, npath = gen_path(rng), gen_path(rng)
+    nquery = gen_query(rng)
+    status = rng.choice([301, 302, 303, 307])
+    loc = "%s://%s%s" % (to_scheme, host, quote(npath)) + ("?" + enc_query(nquery) if nquery else "")
+    world.table.clear()
+    del world.seen[:]
+    world.table[(start_srv, path, ())] = {"kind": "redirect", "status": status, "location": loc, "hop": 0}
+    if to_scheme == "https":
+        world.trust_test_ca()
+    patron = clienting.Patron(store=world.store, path="http://%s:%d%s" % (s0["host"], s0["port"], path), method="GET",
+                              headers=_od([("X-Vf-Id", tag)]))
+    patron.connector.reopen()
+    patron.connector.cs.setsockopt(socket.IPPROTO_TCP, socket.TCP_NODELAY, 1)
+    ha0 = patron.connector.ha
+    patron.transmit()
+    escaped = None
+    taken = False
+    for rounds in range(600):
+        try:
+            patron.serviceAll()
+        except Exception as ex:
+            escaped = "%s: %s" % (type(ex).__name__, str(ex)[:120])
+            break
+        for sv in world.servers.values():
+            sv["valet"].serviceAll()
+        world.store.advanceStamp(0.001)
+        if patron.connector.ha != ha0 or patron.requester.path != path or patron.responses:
+            taken = True
+            break
+        if rounds > 40:
+            time.sleep(0.0005)
+    want_port = 443 if to_scheme == "https" else 80
+    ctx.case(("portless", start_srv, loc, status), nontrivial=taken)
+    if not taken:
+        ctx.hit("portless_redirect_not_seen_in_time")
+        return
+    ctx.hit("portless_redirects_judged")
+    ctx.hit("portless_redirects_to_" + to_scheme)
+    try:
+        request_head = bytes(patron.requester.rebuild()).split(b"\r\n\r\n")[0].decode("iso-8859-1")
+    except Exception as ex:      # noqa
+        request_head = "rebuild raised %r" % (ex,)
+    hostline = [ln for ln in request_head.split("\r\n") if ln.lower().startswith("host:")]
+    wit = lambda: jsonable({"location": loc, "status": status, "from": [s0["host"], s0["port"]], "escaped": escaped,
+                            "connector": [type(patron.connector).__name__, patron.connector.ha],
+                            "requester": {"scheme": patron.requester.scheme, "hostname": patron.requester.hostname,
+                                          "port": patron.requester.port, "path": patron.requester.path},
+                            "request_head": request_head})
+    ok = (patron.connector.ha[1] == want_port and patron.requester.port == want_port and patron.requester.scheme == to_scheme
+          and (type(patron.connector).__name__ == "ClientTls") == (to_scheme == "https"))
+    ctx.check(ok, "redirect/portless-location/not-aimed-at-the-default-port-of-its-scheme/http->%s" % to_scheme,
+              "a Location without a port (%s) is reissued to %s port %s, scheme %s, expected port %d" % (
+                  loc, type(patron.connector).__name__, patron.connector.ha[1], patron.requester.scheme, want_port), wit)
+    ctx.check(len(hostline) == 1 and hostline[0].split(":", 1)[1].strip().lower() in ("%s:%d" % (host, want_port), host),
+              "redirect/portless-location/host-header", "the Host line of the reissued request does not name the Location's host "
+              "(with the default port of its scheme or none): %r" % (hostline,), wit)
+    try:
+        patron.connector.close()
+    except Exception:      # noqa
+        pass
+
+
 def worker(ctx, job):
     deadline = time.time() + job["budget"]
     rng = ctx.rng
@@ -456,6 +530,9 @@ def worker(ctx, job):
                 break
             try:
                 one_case(ctx, world, rng, i, deadline)
+                if i % 8 == 3:
+                    import random as _random
+                    portless_case(ctx, world, _random.Random(repr(("portless", ctx.seed, ctx.job["index"] if ctx.job else 0, i))), i)
             except (OSError, RuntimeError) as ex:      # the harness's own real sockets, never a verdict
                 errs.append("%s: %s" % (type(ex).__name__, ex))
     finally:
@@ -475,6 +552,8 @@ def run(ctx):
     ctx.floor("downgrade_cases", total // 60)
     ctx.floor("downgrade_cases_on_a_supplied_connector", total // 400)
     ctx.floor("redirects_between_hosts_on_the_same_port", total // 30)
+    ctx.floor("portless_redirects_judged", total // 12)
+    ctx.floor("portless_redirects_to_https", total // 40)
     for f, d in (("abs", 4), ("abspath", 10), ("relpath", 10), ("queryonly", 20), ("netpath", 8)):
         ctx.floor("form:" + f, total // d)
     for st in (300, 301, 302, 303, 307, 308):
